@@ -13,6 +13,7 @@ mod c09gossip;
 mod c10;
 mod c10net;
 mod c11;
+mod c11net;
 mod c12;
 mod apinode;
 mod c14;
@@ -232,7 +233,7 @@ fn main() {
         "C08" => run(c08::C08::new(), &args, 700, 20000),
         "C09" => run_parts("C09", vec![part(c09::C09::new(), "", (400, 8000)), part(c09gossip::C09Gossip::new(), "gossip", (400, 8000))], &args),
         "C10" => run2(c10::C10::new(), c10net::C10Net::new(), "connection", &args, (300, 60), (5000, 1500)),
-        "C11" => run(c11::C11::new(), &args, 600, 10000),
+        "C11" => run_parts("C11", vec![part(c11::C11::new(), "", (600, 10000)), part(c11net::C11Net::new(), "net", (24, 400))], &args),
         "C12" => run_parts("C12", vec![part(c12::C12::new(), "", (600, 10000)), part(apinode::ApiNode::new("C12"), "node", (60, 1500))], &args),
         "C13" => run(storeprops::StoreProp::new("C13"), &args, 2500, 40000),
         "C16" => run_parts("C16", vec![part(storeprops::StoreProp::new("C16"), "", (1500, 20000)), part(c14::C14::removal(), "actor", (300, 5000)), part(apinode::ApiNode::new("C16"), "node", (60, 1500))], &args),
